@@ -1120,6 +1120,12 @@ class Interp:
                         self.set_itv(st, b, 1, 1)
                     elif st.itv[b] == (0, 0):
                         self.set_itv(st, a, 1, 1)
+        elif k == "anyall":
+            is_all, src, fval, fty, site = p[2]
+            # `all(p)` true / `any(p)` false: the predicate has that value for EVERY element, so the
+            # element abstraction of the source sequence can be refined by it
+            if src is not None and ((is_all and val == 1) or (not is_all and val == 0)):
+                self.refine_elems_by_predicate(st, src, fval, fty, 1 if is_all else 0, site)
         elif k == "discr":
             key, proj, tid = p[2]
             t = self.prog.ty(tid)
@@ -1133,6 +1139,47 @@ class Interp:
                     raise Diverge()
                 if len(e.vs) > 1:
                     self.store_at_raw(st, key, proj, En({var: e.vs[var]}))
+
+    def refine_elems_by_predicate(self, st, src, fval, fty, want, site):
+        from .models import call_closure
+        try:
+            seq = self.load(st, src.key, src.proj)
+        except (Unsupported, Diverge):
+            return
+        if type(seq) is not Sq or type(seq.elem) is not I or seq.head:
+            return
+        e = seq.elem
+        tmp = st.copy()
+        probe = self.ctx.mk_int(tmp, *tmp.itv[e.vid], e.ty, taint=e.vid in tmp.taint)
+        key = ("h", "probe", site)
+        tmp.store[key] = probe
+        fr = getattr(self, "_cur_frame", None)
+        if fr is None:
+            return
+        self.ctx.quiet += 1
+        self.ctx.no_memo = getattr(self.ctx, "no_memo", 0) + 1
+        try:
+            outs = call_closure(self, tmp, fr, site[1], fval, fty, [Pt(key)])
+        except (Unsupported, Diverge) as ex:
+            self.ctx.emit("unsupported", fn=fr.inst.name, where="any/all refinement", what=str(ex))
+            return
+        finally:
+            self.ctx.quiet -= 1
+            self.ctx.no_memo -= 1
+        lo, hi = None, None
+        for r, s2 in outs:
+            if type(r) is not I:
+                return
+            try:
+                self.set_itv(s2, r.vid, want, want)
+            except Diverge:
+                continue
+            pl, ph = s2.itv[probe.vid]
+            lo = pl if lo is None else min(lo, pl)
+            hi = ph if hi is None else max(hi, ph)
+        if lo is None:
+            raise Diverge()
+        self.set_itv(st, e.vid, lo, hi)
 
     def store_at_raw(self, st, key, proj, val):
         """replace the value at (key, proj) without weak-update semantics (refinement only)"""
